@@ -435,6 +435,9 @@ func runReader(tb ev.TB, c readerCase) (labels []string, nontrivial bool) {
 	for i := 0; i < n; i++ {
 		cfg := kafka.ReaderConfig{Brokers: []string{"b1.fake:9092"}, Topic: "t", Dialer: dialer(i), MinBytes: 1, MaxBytes: 1 << 20, MaxWait: 200 * time.Millisecond, ReadLagInterval: -1,
 			ReadBackoffMin: time.Millisecond, ReadBackoffMax: 5 * time.Millisecond, MaxAttempts: 2}
+		if c.Records > 3 && c.DelayUs%200 == 0 {
+			cfg.QueueCapacity = 1 + c.Records%3 // a lagging consumer: the partition readers wait on a full queue
+		}
 		if c.Group {
 			cfg.GroupID = "g"
 			cfg.HeartbeatInterval = 10 * time.Millisecond
